@@ -49,8 +49,16 @@ def load_cfg(prop):
 
 def all_props():
     d = os.path.join(VERIF, "harness")
-    return sorted(x for x in os.listdir(d) if re.fullmatch(r"C\d+", x)
-                  and os.path.exists(os.path.join(d, x, "config.json")))
+    out = []
+    for x in sorted(os.listdir(d)):
+        cp = os.path.join(d, x, "config.json")
+        if re.fullmatch(r"C\d+", x) and os.path.exists(cp):
+            try:
+                if json.load(open(cp)).get("ready"):
+                    out.append(x)
+            except Exception:
+                pass
+    return out
 
 
 # ----------------------------------------------------------------------------- Lean side
@@ -302,11 +310,16 @@ def driver_stage(cfg, results, work):
 # ----------------------------------------------------------------------------- classify
 
 def load_findings(prop):
-    p = os.path.join(VERIF, "known_findings.json")
-    if not os.path.exists(p):
-        return {}
-    data = json.load(open(p))
-    return {f["tag"]: f for f in data.get("findings", []) if f.get("property") == prop}
+    """Union of /verif/known_findings.json and harness/<prop>/findings.json (same format)."""
+    out = {}
+    for p in (os.path.join(VERIF, "known_findings.json"),
+              os.path.join(VERIF, "harness", prop, "findings.json")):
+        if os.path.exists(p):
+            data = json.load(open(p))
+            for f in data.get("findings", []):
+                if f.get("property") == prop:
+                    out[f["tag"]] = f
+    return out
 
 
 def classify(cfg, results, outs, findings):
